@@ -264,6 +264,14 @@ static RunSpec derive_spec(const std::string& world, int variant, uint64_t run_s
     }
     static const uint32_t wp[] = {50, 70, 85, 95};
     s.window_pct = wp[rc.below(4)];
+    if (rc.chance(thorough ? 5 : 3, 100)) {
+      // large-dimension world: thresholds such as N >= 4096 / 8192 are only crossed here
+      g.large_world = true;
+      g.ntasks = 2 + (int)rc.below(3);
+      g.min_calls = 1;
+      g.max_calls = 3;
+      g.table_ops = g.simple_ops = g.q120 = false;
+    }
   }
   g.ntt120 = (s.maskA == MASK_ALL || s.maskA == MASK_AVX2) && (world != "c07" || ((s.maskB == MASK_ALL || s.maskB == MASK_AVX2)));
   Rng rp(run_seed, 2);
